@@ -90,7 +90,7 @@ func VH_C11_agree() {
 	K := vParam("K")
 	O := vParam("O")
 	ML := vParam("ML")
-	ref, vs, recs := vPairInputs(L, K, O, ML, []int{vM, vI, vD, vS})
+	ref, vs, recs := vPairInputs(L, K, O, ML, vPairOps())
 	_, unique := vInsertions(vs, L)
 	vAssume(unique)
 	cds, inter := vAnnotation(ref)
@@ -154,7 +154,7 @@ func VH_C05_sam() {
 	L := vParam("L")
 	O := vParam("O")
 	ML := vParam("ML")
-	ref, vs, recs := vPairInputs(L, 1, O, ML, []int{vM, vI, vD, vS})
+	ref, vs, recs := vPairInputs(L, 1, O, ML, vPairOps())
 	_, unique := vInsertions(vs, L)
 	vAssume(unique)
 	_, A, ok := vSamVariants(recs, ref, nil, nil)
@@ -170,7 +170,8 @@ func VH_C05_sam() {
 	for k, t := range v.types {
 		n := v.lens[k]
 		switch t {
-		case vM:
+		case vM, vEq, vX, vN:
+			// N skips reference bases without deleting them (the query is unknown there)
 			r += n
 		case vD:
 			for j := 0; j < n; j++ {
